@@ -50,6 +50,7 @@ PROPERTIES["C12"] = dict(
     ],
 )
 
+PIPE_FILES = ["pipeline/zz_verif_pipe.go", "pipeline/zz_verif_p08.go", "config::config/zz_verif_export.go", "annotation::annotation/zz_verif_export.go", "assertion/global::global/zz_verif_export.go"]
 INFER_FILES = ["inference/zz_verif_c05.go", "inference/zz_verif_c05l2.go", "inference/zz_verif_c06.go", "inference/zz_verif_c04.go", "inference/zz_verif_c15.go", "inference/zz_verif_c15m.go", "inference/zz_verif_c08.go", "inference/zz_verif_registry.go",
                "annotation::annotation/zz_verif_export.go"]
 
@@ -305,6 +306,7 @@ PROPERTIES["C08"] = dict(
         dict(pkg="inference", files=INFER_FILES, entry="Harness_C08_Filter",
              quick=dict(params=dict(STMTS=2, N=3)), thorough=dict(params=dict(STMTS=2, N=4)), args=dict(sample_every=97)),
         dict(pkg="inference", files=INFER_FILES, entry="Harness_C08_Rounds", args=dict(sample_every=97)),
+        dict(pkg="accumulation", files=PIPE_FILES, entry="Harness_P08", args=dict(sample_every=23, max_samples=16)),
     ],
 )
 
@@ -345,6 +347,7 @@ PROPERTIES["C14"] = dict(
         dict(pkg="util/tokenhelper", files=TOKEN_FILES, entry="Harness_C14_Rel", args=dict(sample_every=3)),
     ],
 )
+
 
 PROPERTIES["C20"] = dict(
     explanation="K1 (the contract is true): the harness prints a one-parameter one-result pointer function from a depth-bounded grammar (if/else, early returns, conditional assignments to a local, "
